@@ -58,6 +58,8 @@ class PathCtx:
         self.timeout_ms = timeout_ms
         self.pc = []
         self.results: list[ObligationResult] = []
+        self.memo_state_reads = []      # (memoised function, module.name) pairs: reads of rebindable module state inside a memoised function
+        self.memoised_entered = set()
         self.fresh_counter = 0
         self.pure_depth = 0
         self.solver_seconds = 0.0
